@@ -5,6 +5,8 @@
 (*   run   (v, files: path -> [sha, mtime])     snapshot of the location after running version v      *)
 (*         failed: TRUE when the run ended with an error (a version whose sources typeshare rejects)  *)
 (*   touch (files)                              Writer!Touch: placeholder files put into the empty location before the first run *)
+(*   remove (files)                             Writer!Remove: somebody removed the helper file; the next run is a repair (Fresh),   *)
+(*                                              not a re-run (Idempotent)                                                              *)
 (* Layer P (Writer!Idempotent, Writer!Fresh, Writer!FailedRunTouchesNothing) judges every run event.  *)
 EXTENDS TLC, Json, IOUtils, Sequences, Naturals
 Rec == ndJsonDeserialize(IOEnv.TRACE)
@@ -24,8 +26,8 @@ Next == /\ i <= Len(Rec)
         /\ LET e == Rec[i] IN
              /\ bad' = IF Ok(e) THEN bad ELSE Append(bad, i)
              /\ refs' = IF e.ev = "ref" THEN [v \in (DOMAIN refs) \cup {e.v} |-> IF v = e.v THEN e.files ELSE refs[v]] ELSE refs
-             /\ prev' = IF e.ev \in {"run", "touch"} THEN e.files ELSE IF e.ev = "reset" THEN NoFiles ELSE prev
-             /\ prevv' = IF e.ev = "run" THEN (IF e.failed THEN prevv ELSE e.v) ELSE IF e.ev = "reset" THEN "none" ELSE prevv
+             /\ prev' = IF e.ev \in {"run", "touch", "remove"} THEN e.files ELSE IF e.ev = "reset" THEN NoFiles ELSE prev
+             /\ prevv' = IF e.ev = "run" THEN (IF e.failed THEN prevv ELSE e.v) ELSE IF e.ev \in {"reset", "remove"} THEN "none" ELSE prevv
         /\ i' = i + 1
 Report == (i = Len(Rec) + 1) => PrintT(<<"INFO", "bad", ToJson(bad)>>)
 Accepted == PrintT(<<"INFO", "matched", TLCGet("stats").diameter - 1>>)
